@@ -45,6 +45,11 @@ TABLE = {
             "Held on the scheduled interleavings explored (the evidence reports the number of distinct schedules, steals, idle transitions and quit-while-work-queued situations observed): no entry lost or duplicated, every walk ended within the step bound, also with Quit injected at each visit index.",
             "Liveness restated as bounded progress under fair seeded schedules; hook granularity; not exhaustive over schedules (no model checking).",
             "DESIGN.md §3 C07, §5"),
+    "C08": (True, "exploration",
+            "runtime monitoring of rg -jN vs rg -j1 on generated trees under perturbed timing (files of very different size, a sleeping --pre on a random subset): outputs parsed into per-file blocks (NUL-delimited paths / heading blocks / JSON begin..end) and compared as multisets, with contiguity, separator and exit-status checks; --sort compared byte for byte across repetitions; TSan binary in the thorough tier",
+            "Held on the generated trees x modes x thread counts x repetitions: every multi-threaded output was a permutation of the single-threaded per-file blocks; the evidence reports how many distinct block orders were actually observed.",
+            "The OS scheduler chooses the interleavings; reach comes from size skew and the slow preprocessor, not from controlled scheduling.",
+            "DESIGN.md §3 C08"),
     "C11": (True, "exploration",
             "runtime monitoring of the built RegexMatcher's promises (line_terminator, non_matching_bytes, find_candidate_line, is_match) against a reference engine on language-directed and exhaustive small-alphabet lines; the two grep-regex HIR hooks steer the sampler",
             "No witness found among the lines produced: terminator never inside a match, language over terminator-free lines unchanged, declared non-matching bytes never inside a match, candidate search never passes over a matching line; patterns requiring the terminator were rejected. The 'over ALL lines' quantifier is only approximated (see level_note).",
